@@ -116,6 +116,20 @@ func ResetCounts() {
 	mu.Unlock()
 }
 
+// Emit appends one harness-level event (a JSON object without braces, e.g. `"c":1,"k":"a"`) to the trace,
+// numbered by the same counter as the hook events.
+func Emit(site string, fields string) {
+	n := seq.Add(1)
+	mu.Lock()
+	if traceF != nil {
+		if fields != "" {
+			fields = "," + fields
+		}
+		fmt.Fprintf(traceF, "{\"n\":%d,\"site\":%q%s}\n", n, site, fields)
+	}
+	mu.Unlock()
+}
+
 // At marks a named site.
 func At(site string) { at(site, 0, 0) }
 
